@@ -76,6 +76,12 @@ def family(ctx: Ctx) -> List[Tuple[str, str, Dict[str, Any]]]:
     for a in tg.int_atoms(GS, (1, 2, 16), ("==", "<=", ">")):
         for b in tg.int_atoms(GI, (0, 1, 15), ("==", "<", ">=")):
             add(f"g/{a.op}{a.const[1]}{a.order}-{b.op}{b.const[1]}{b.order}", tg.Program((tg.Check(a, "assert"), tg.Check(b, "bz_reject"), tg.Exit("approve"))))
+    # (n) meaning-preserving textual noise (comments, blank lines, indentation, renamed labels, hex/octal spellings):
+    #     each noisy variant is validated against the semantics on its own (C15's rewrites, decided by the solver)
+    base = list(progs)
+    for idx, (name, src, spec) in enumerate(base):
+        if idx % (12 if ctx.quick else 4) == ctx.seed % (12 if ctx.quick else 4) and not name.startswith("c/"):
+            add("n/" + name, tg.noisy(src, idx % 7), spec)
     # (h) repository corpus
     for name, src in families.corpus():
         add("h/" + name, src)
